@@ -91,7 +91,7 @@ P = {
          'crash-prefix invariant over an operation-list model with fault outcomes + LD_PRELOAD system-call correspondence + kill and fault enumeration',
          'POSIX rename atomicity and kill semantics are assumptions; no power-loss model.'),
  'C19': ('Law-generic theorems: iteration k+1 samples with refine(state_k, adjustment_k) under the checkpoint\'s parameters, result k records the state its points were drawn with, iteration 0 uses the user\'s '
-         '(normalised) state or the uniform default; every event of an iteration is a point of that recorded state; supplement Properties_C19m: the same threading on every rank of the MPI drivers; a self-checking C++-only stage drives VEGAS through a loop written by the user (pdf, vegas_iteration, add, rollback) and through a callback that discards an iteration.',
+         '(normalised) state or the uniform default; every event of an iteration is a point of that recorded state; supplement Properties_C19m: the same threading on every rank of the MPI drivers; supplement Properties_C19u: a checkpoint driven by any sequence of the add and rollback operations of the user refines a plain list of results, and pdf() / channel_weights() after any accepted history is the refinement of the last surviving result (nothing remembered from discarded iterations); a self-checking C++-only stage drives VEGAS through a loop written by the user (pdf, vegas_iteration, add, rollback) and through a callback that discards an iteration.',
          'induction over the run model + bit-exact correspondence of states and points (serial, resumed)',
          ''),
  'C20': ('Theorems: the drivers depend on the callback only through its answers, which are mode-free; index safety of the summary printers for every weight vector (sorted channel permutation, all printed indices in range, '
